@@ -28,6 +28,51 @@ from .core import (  # noqa: F401
 )
 from . import core  # noqa: F401
 
+_STUB_CLASSES = None
+
+
+def _stub_class_names():
+    """Names of the classes defined in the property modules: the stand-ins (stub readers, fake file
+    systems, spies) live there."""
+    global _STUB_CLASSES
+    if _STUB_CLASSES is None:
+        import ast
+        import glob
+        import os
+
+        names = set()
+        for f in glob.glob(os.path.join(os.path.dirname(os.path.abspath(__file__)), "props", "*.py")):
+            try:
+                tree = ast.parse(open(f).read())
+            except SyntaxError:
+                continue
+            names.update(n.name for n in ast.walk(tree) if isinstance(n, ast.ClassDef))
+        _STUB_CLASSES = names
+    return _STUB_CLASSES
+
+
+def stub_gap(exc):
+    """True when an exception says that a stand-in object of the harness lacks something the code
+    under test used (an attribute, a protocol): that is a gap of the harness -- the real object
+    (a pysam file, a pyfaidx record) may well provide it -- and must not be reported as a
+    violation of the property."""
+    import re
+
+    if not isinstance(exc, (AttributeError, TypeError, NotImplementedError)):
+        return False
+    obj = getattr(exc, "obj", None)
+    if obj is not None and type(obj).__module__.startswith("symx.props"):
+        return True
+    return any(m in _stub_class_names() for m in re.findall(r"'(\w+)' object", str(exc)))
+
+
+def claim_raised(ctx, what, exc):
+    """The code under test raised: a failed claim '<what> raised <Type>' (stable label, message in
+    info) -- unless the exception only shows that a stand-in is incomplete (harness error)."""
+    if stub_gap(exc):
+        raise core.HarnessError(f"a stand-in object of the harness lacks what the code uses ({type(exc).__name__}: {exc}); extend the stand-in")
+    ctx.claim(False, f"{what} raised {type(exc).__name__}", info=str(exc)[:200])
+
 
 class Harness:
     """One symbolic harness.
